@@ -1166,6 +1166,32 @@ def candidate_appends(ctx, ce: FuncInfo) -> List[Tuple[FuncInfo, ast.Call, List[
     return out
 
 
+def exit_set_anchored_on_target(ctx, rid: str) -> None:
+    """The region the exit set is narrowed to (under a parallel domain) is the one that contains the transition's *target*: the state
+    handed to ``_compute_states_to_exit`` is the very state the domain was computed for and the entry path leads to - never the
+    source (for a transition that crosses regions the source's region is not the one that is re-entered)."""
+    from sa.util import expand_names
+    c, p = ctx.c, ctx.p
+    n = 0
+    for v in VIEWS:
+        ex = roles(ctx, v).executor
+        comp = self_calls_in(ex, "_compute_states_to_exit")
+        doms = self_calls_in(ex, "_find_transition_domain")
+        for call in comp:
+            if len(call.args) < 2:
+                continue
+            n += 1
+            a = expand_names(ex, call.args[1])
+            from_source = any(isinstance(y, ast.Attribute) and y.attr == "source" for y in ast.walk(a))
+            same = [d for d in doms if len(d.args) >= 2 and norm(expand_names(ex, d.args[1])) == norm(a)]
+            ok = not from_source and (bool(same) or not doms)
+            c.ob(rid, ok, ex, f"{v}:exit-set-anchored-on-target", "the exit set is narrowed towards the state the domain was computed for (the target)" if ok else
+                 f"'{norm(call)[:80]}' narrows the exit set towards '{norm(call.args[1])}' "
+                 f"{'(the source)' if from_source else '(not the state handed to _find_transition_domain)'}: for a transition that crosses regions of a parallel "
+                 f"state the source's region is exited and never re-entered, while the target's region is entered a second time without being exited", call)
+    c.expect(rid, "exit-set computations in the executors", n, 1, roles(ctx, "Interpreter").executor)
+
+
 def eligible_bucket_rules(ctx, rid: str, which: str) -> None:
     """Candidate collection (``_collect_eligible_transitions``): a transition becomes a candidate only
       * when its own guard passes (``which='guard'``: a positive ``_passes(t)`` atom for the very transition appended), and
